@@ -92,6 +92,51 @@ def gen_random_part(rng, n):
     return files
 
 
+ISO_EXT = {  # imported type -> (import line, usable as map key, orderable by compare, printable by gostring)
+    "ext1.Name": ('ext1 "sites/ext1/ext"', True),
+    "ext1.Pub": ('ext1 "sites/ext1/ext"', False),
+    "ext1.Key": ('ext1 "sites/ext1/ext"', True),
+    "ext2.A": ('ext2 "sites/ext2/ext"', False),
+}
+ISO_SHAPES = ["map[E]int", "map[string]E", "map[E]E", "[]E", "[2]E", "struct {\n\tF E\n}", "struct {\n\tF *E\n}", "struct {\n\tF []E\n\tG int\n}",
+              "struct {\n\tF map[E]bool\n}", "struct {\n\tF map[int]E\n}", "[]*E", "map[E][]string"]
+ISO_CALLS = {  # plugin -> wrapper source over the argument type X
+    "equal": "func Use(a, b X) bool { return deriveEqual(a, b) }",
+    "compare": "func Use(a, b X) int { return deriveCompare(a, b) }",
+    "hash": "func Use(a X) uint64 { return deriveHash(a) }",
+    "deepcopy": "func Use(a, b X) { deriveDeepCopy(a, b) }",
+    "clone": "func Use(a X) X { return deriveClone(a) }",
+    "gostring": "func Use(a X) string { return deriveGoString(a) }",
+    "keys": "func Use(a X) int { return len(deriveKeys(a)) }",
+}
+
+
+def gen_iso(rng, n):
+    """Isolated packages: ONE derive call each, on a locally declared named type T (or *T) built over ONE imported
+    type. The import block of such a derived.gen.go is decided by that single call: an import the emitted code does
+    not use, or one it uses and does not list, cannot hide behind the other functions of a big package."""
+    combos = []
+    for e, (imp, keyable) in sorted(ISO_EXT.items()):
+        for sh in ISO_SHAPES:
+            if "map[E]" in sh and not keyable:
+                continue
+            for pl in sorted(ISO_CALLS):
+                for ptr in (False, True):
+                    if pl == "keys" and (ptr or not sh.startswith("map[")):
+                        continue
+                    if pl == "deepcopy" and not ptr and not (sh.startswith("map[") or sh.startswith("[]")):
+                        continue
+                    combos.append((e, imp, sh, pl, ptr))
+    rng.shuffle(combos)
+    files, meta = {}, {}
+    for i, (e, imp, sh, pl, ptr) in enumerate(combos[:n] if n else combos):
+        name = "iso%03d" % i
+        src = "package %s\n\nimport %s\n\ntype T %s\n\n%s\n" % (name, imp, sh.replace("E", e), ISO_CALLS[pl].replace("X", "*T" if ptr else "T"))
+        files["iso/%s/%s.go" % (name, name)] = src
+        meta[name] = {"imported": e, "shape": sh.replace("E", e), "plugin": pl, "arg": "*T" if ptr else "T"}
+    return files, meta
+
+
 def instantiate(dst, rng, nrandom):
     for d, _, fs in os.walk(DATA):
         for f in fs:
@@ -146,6 +191,8 @@ def run(rep):
             fm = common.sh(["gofmt", "-l", os.path.join(d, "p", "derived.gen.go")])
             if fm.stdout.strip():
                 rep.notes.append("derived.gen.go of sites round %d is not gofmt-clean (recorded, not part of the statement)" % r)
+        # isolated one-call packages over imported types
+        iso_part(rep, binp, rng, root)
         # the type corpus: generation must succeed and compile
         info = common.prepare_corpus(rep.tier, rep.seed, ["equal", "compare", "hash"])
         info2 = common.prepare_corpus(rep.tier, rep.seed, ["deepcopy", "clone"])
@@ -166,6 +213,56 @@ def run(rep):
                 rep.cov.setdefault("corpus_types", {})[what] = inf["stats"].get("types")
     finally:
         shutil.rmtree(root, ignore_errors=True)
+
+
+def iso_part(rep, binp, rng, root):
+    import concurrent.futures
+    d = os.path.join(root, "iso")
+    instantiate(d, rng, 0)
+    shutil.rmtree(os.path.join(d, "p"))
+    files, meta = gen_iso(rng, 160 if rep.tier == "quick" else 0)
+    for rel, src in files.items():
+        os.makedirs(os.path.dirname(os.path.join(d, rel)), exist_ok=True)
+        with open(os.path.join(d, rel), "w") as f:
+            f.write(src)
+
+    def one(name):
+        rc, err, to = common.run_goderive(binp, d, ["./iso/" + name], timeout=120, mem_gb=4)
+        return name, rc, err, to
+
+    with concurrent.futures.ThreadPoolExecutor(max_workers=12) as ex:
+        res = list(ex.map(one, sorted(meta)))
+    okp, refused = [], 0
+    for name, rc, err, to in res:
+        rep.cov["programs"] += 1
+        src = files["iso/%s/%s.go" % (name, name)]
+        if to or (rc != 0 and re.search(r"panic:|goroutine \d+ \[", err)):
+            rep.violation("goderive crashed or hung on an isolated one-call package (%s): %s" % (meta[name], err[-300:]),
+                          {"program": "iso", "file": src, "case": meta[name]}, True)
+        elif rc != 0:
+            refused += 1      # refused with a message: nothing was promised
+            shutil.rmtree(os.path.join(d, "iso", name))
+        else:
+            okp.append(name)
+    p = common.sh(["go", "vet", "./iso/..."], cwd=d, timeout=900)
+    bad = {}
+    for m in re.finditer(r"^(?:# sites/iso/(iso\d+)|(?:\./)?iso/(iso\d+)/[^:]+:\d+:\d+: (.*))$", p.stderr, flags=re.M):
+        if m.group(2):
+            bad.setdefault(m.group(2), m.group(3))
+    if p.returncode != 0 and not bad:
+        rep.violation("isolated one-call packages do not type-check: " + p.stderr[:900], {"program": "iso", "vet": p.stderr[:3000]}, True)
+    for name, msg in sorted(bad.items())[:4]:
+        gen = ""
+        try:
+            gen = open(os.path.join(d, "iso", name, "derived.gen.go")).read()
+        except OSError:
+            pass
+        rep.violation("goderive exit 0 but package + derived.gen.go do not type-check (isolated call %s): %s" % (meta.get(name), msg),
+                      {"program": "iso", "file": files.get("iso/%s/%s.go" % (name, name)), "case": meta.get(name), "derived": gen[:6000], "vet": msg}, True)
+    rep.cov["evaluations"] += len(okp)
+    rep.cov["distinct_nontrivial"] += len(okp)
+    rep.cov["isolated_packages"] = {"generated": len(okp), "refused_with_message": refused,
+                                    "by_plugin": {pl: sum(1 for n in okp if meta[n]["plugin"] == pl) for pl in sorted(ISO_CALLS)}}
 
 
 def replay(rep, path):
